@@ -263,7 +263,20 @@ func runC02One(cs *vrt.Case) {
 			if r.Intn(5) == 0 {
 				kind = 3
 			}
-			o = runYao(r, c, gx[pi], gy[pi], yaoOpts{ot: otk, kind: kind, stallWin: 30 * time.Second})
+			opts := yaoOpts{ot: otk, kind: kind, stallWin: 30 * time.Second}
+			dying := kind == 2 && r.Intn(12) == 0
+			if dying {
+				// the garbler's entropy source dies part-way: the session may
+				// fail, but a session that reports success must still be right
+				opts.randSeed, opts.randFailAfter = r.U64()|1, 32+r.Intn(16*2*(n0+n1+2))
+				cs.Count("sessions_with_dying_garbler_entropy", 1)
+			}
+			o = runYao(r, c, gx[pi], gy[pi], opts)
+			if dying && firstPanic(o.g, o.e) == nil && (o.g.err != nil || o.e.err != nil) {
+				cs.Count("sessions_aborted_on_dying_entropy", 1)
+				cs.Evals++
+				continue
+			}
 		}
 		cs.Evals++
 		desc := map[string]any{"overlapping": overlap, "circuit": what, "inputs": c.Inputs.String(), "outputs": c.Outputs.String(), "ot": o.otName, "x": p.x.Text(16), "y": p.y.Text(16), "transport": kind}
